@@ -914,6 +914,56 @@ def modname_for(key_name):
     return "f_" + re.sub(r"[^A-Za-z0-9_]", "_", key_name)
 
 
+CORE_DEFAULTS = {
+    # core::iter::Iterator::size_hint (library/core/src/iter/traits/iterator.rs): `(0, None)`
+    "size_hint": ("fn size_hint(&self) -> (usize, Option<usize>)", "{ (0, None) }"),
+}
+
+
+def synth_fn(key, rec, impls, ctx, table, by_mod):
+    mod, rest = key.rsplit("::", 2)[0], key.split("::")[-2:]
+    tyname, fname = rest[0], rest[1].split("@")[0]
+    trait = rest[1].split("@")[1]
+    if fname not in CORE_DEFAULTS:
+        die("overlay: no core default known for " + key)
+    host = None
+    for src, m, im in impls:
+        if m == mod and re.sub(r"<.*", "", compact(im["self_ty_text"])) == tyname and compact(im.get("trait", "")) == trait:
+            host = (src, im)
+    if host is None:
+        die("overlay: %s: no `impl %s for %s` to host the synthesized default" % (key, trait, tyname))
+    src, im = host
+    sig, body = CORE_DEFAULTS[fname]
+    ret = rec.attrs.get("ret")
+    if ret:
+        sig = re.sub(r"-> (.*)$", lambda m: "-> (%s: %s)" % (ret, m.group(1)), sig)
+    spec = ""
+    for kind in ("requires", "ensures"):
+        ss = [x for x in rec.sections if x.anchor == kind]
+        if ss:
+            spec += "\n" + kind + "\n"
+            for x in ss:
+                x.used = True
+                txt = x.text.rstrip()
+                if not txt.endswith(","):
+                    txt += ","
+                ctx.clauses[x.cid] = {"tags": x.tags, "fn": key, "anchor": x.anchor, "args": x.args, "origin": x.origin, "text": txt.strip()}
+                spec += "/*<%s>*/\n%s\n/*</%s>*/\n" % (x.cid, txt, x.cid)
+    gen = im.get("generics_text", "")
+    ty = im["self_ty_text"]
+    if "'_" in ty:
+        ty = ty.replace("'_", "'a")
+        gen = "<'a, " + gen[1:] if gen else "<'a>"
+    text = "impl%s %s %s {\n/*<fn %s>*/\npub %s%s\n%s\n/*</fn %s>*/\n}" % (gen, ty, im.get("where_text", ""), key, sig, spec, body, key)
+    sub = modname_for(fname + "_" + tyname)
+    a, b = im["span"]
+    table[key] = {"key": key, "file": src.rel, "span": [a, b], "mode": "contract", "vis": "pub", "sha256": "",
+                  "line": src.data[:a].count(b"\n") + 1, "module": mod + "::" + sub, "gen_name": fname,
+                  "rewrites": ["R9 default body of %s::%s synthesized from core (not overridden in %s)" % (trait, fname, src.rel)],
+                  "sites": {}, "clauses": [x.cid for x in rec.sections if x.cid in ctx.clauses], "synthesized": True}
+    by_mod.setdefault(mod, []).append((sub, text, False))
+
+
 def generate(outdir):
     os.makedirs(outdir, exist_ok=True)
     srcs = run_pqx()
@@ -991,6 +1041,11 @@ def generate(outdir):
             sub = "%s_%d" % (base, n)
         entry["module"] = fn.mod + "::" + sub
         by_mod.setdefault(fn.mod, []).append((sub, text, fn.impl is None))
+    # R9: trait methods that are not overridden but under contract: the default body from core is what runs
+    for key, rec in recs.items():
+        if rec.attrs.get("synth") and key not in fnkeys:
+            rec.used = True
+            synth_fn(key, rec, impls, ctx, table, by_mod)
     if missing and os.environ.get("PQ_ALLOW_MISSING"):
         print("gen: %d functions without overlay record (bring-up mode)" % len(missing), file=sys.stderr)
     elif missing:
